@@ -41,6 +41,43 @@ type c19Verdict struct {
 
 const c19Root = "file:///c19/a/root.json"
 
+// respell writes the same JSON text the way other producers do: 1 = white space around ':' and after ',' (pretty printers),
+// 2 = every '$' inside strings written as the escape \u0024 (encoders that escape non-alphanumerics). The value is unchanged.
+func respell(text []byte, mode int) []byte {
+	if mode == 0 {
+		return text
+	}
+	var out []byte
+	inStr, esc := false, false
+	for _, c := range text {
+		switch {
+		case inStr && esc:
+			esc = false
+			out = append(out, c)
+		case inStr && c == '\\':
+			esc = true
+			out = append(out, c)
+		case inStr && c == '"':
+			inStr = false
+			out = append(out, c)
+		case inStr && c == '$' && mode == 2:
+			out = append(out, []byte(`\u0024`)...)
+		case inStr:
+			out = append(out, c)
+		case c == '"':
+			inStr = true
+			out = append(out, c)
+		case c == ':' && mode == 1:
+			out = append(out, ' ', ':', ' ')
+		case c == ',' && mode == 1:
+			out = append(out, ',', '\n', ' ')
+		default:
+			out = append(out, c)
+		}
+	}
+	return out
+}
+
 func c19Run(env *core.Env, idx int) core.CaseResult {
 	var res core.CaseResult
 	rng := core.Rng(env.Seed, "C19", idx)
@@ -76,6 +113,8 @@ func c19Run(env *core.Env, idx int) core.CaseResult {
 		g.MaxDepth = 2 + rng.Intn(3)
 		doc := g.Swagger(nil)
 		text, _ := json.Marshal(doc)
+		text = respell(text, k%3) // the document as a pretty printer or an escaping encoder would have written it
+		res.Count(fmt.Sprintf("input-spelling.%d", k%3), 1)
 		id := fmt.Sprintf("d%d", k)
 		r := &rec{doc: doc, text: text, features: g.Cells}
 		hasOp := g.Cells["pathItem.get"]+g.Cells["pathItem.put"]+g.Cells["pathItem.post"]+g.Cells["pathItem.delete"]+g.Cells["pathItem.options"]+g.Cells["pathItem.head"]+g.Cells["pathItem.patch"] > 0
